@@ -4,10 +4,11 @@ Oracle A (history vs. reference model): random expression trees over every prefi
 operator, indexing, calls, ranges, assignment and compound assignment, with operands of every value
 kind (so the error class and message are part of the expectation) and t(k, v) probes that make
 evaluation order and evaluate-once visible; nested if / else-if / else, while, for, blocks, break,
-continue, return with trace prints."""
+continue, return with trace prints; an exhaustive small-scope index sweep (every sequence kind x every
+integer / range index from below -len to above len, non-integral, infinite and ill-typed indexes, index stores)."""
 from .. import common
 from ..common import Check
-from ..gen import progs
+from ..gen import feat_index, progs
 from . import modelcheck
 
 
@@ -41,6 +42,9 @@ def run(tier):
         for i in range(n[name]):
             src, mods = progs.generate(rng.fork(str(i)), prof)
             plist.append({"name": "%s/%d" % (name, i), "steps": [("snip", src)], "mods": mods})
+
+    for name, src in feat_index.programs(ck.rng.fork("index"), sample=6000 if quick else None):
+        plist.append({"name": name, "steps": [("snip", src)], "mods": []})
 
     def seen(p, m, res):
         v = m["view"][0]
